@@ -19,15 +19,12 @@ structure CType where
   tag : Nat := 0
 deriving DecidableEq, Repr
 
-/-- 2^n as an integer (computed on `Nat`, where the runtime has a fast power). -/
-def pow2 (n : Nat) : Int := ((2 ^ n : Nat) : Int)
-
 namespace CType
 
 /-- 2^(bits-1) -/
-def half (t : CType) : Int := pow2 (t.bits - 1)
+def half (t : CType) : Int := 2 ^ (t.bits - 1)
 /-- 2^bits -/
-def card (t : CType) : Int := pow2 t.bits
+def card (t : CType) : Int := 2 ^ t.bits
 
 /-- `std::numeric_limits<T>::max()` -/
 def maxVal (t : CType) : Int := if t.signed then t.half - 1 else t.card - 1
